@@ -11,12 +11,12 @@ OPENER = re.compile(r"@\w*[ \t]*\{")
 
 WS_ANY = [" ", "  ", "\t", "\n", "\n  ", " \n", "\r\n", "", "", ""]
 WS_ONE = [" ", "  ", "\t", "\n", "\n  ", "\r\n"]
-PLAIN = list("abcXYZ019 .;:!?+-*/()[]<>|'`~^_&%$") + ["é", "ß", "λ", "中", "@", "#", "ü", "Ø"]
+PLAIN = list("abcXYZ019 .;:!?+-*/()[]<>|'`~^_&%$") + ["é", "ß", "λ", "中", "@", "#", "ü", "Ø", "İ", "ı", "ſ", "ﬁ", "\ufeff", "\u00a0", "K"]
 ESCAPES = ["\\{", "\\}", '\\"', "\\,", "\\=", "\\\\ ", "\\'e", "\\&", "\\%", "\\@", "\\#", "\\ ", "\\o "]
 TYPES = ["article", "Book", "inproceedings", "MISC", "a", "techreport", "online", "x_y", "ärticle",
          "commentary", "Comments", "stringent", "preambles", "PhdThesis", "B2", "_"]
 FKEYS = ["author", "title", "year", "Month", "note", "url", "a", "b-c", "x_1", "Title", "editor", "pages",
-         "journal", "doi", "é", "k.k", "a:b", "+", "volume", "number"]
+         "journal", "doi", "é", "k.k", "a:b", "+", "volume", "number", "İd", "straße", "booktitle"]
 IDENTS = ["jan", "feb", "foo", "Bar", "x1", "a.b", "k-2", "mar", "acm", "IEEE", "s_1", "é", "a:b", "a+b"]
 KEYCH = "abcdefgXYZ0123456789_:.-/+*'!?|<>[]()&%$^~;"
 
@@ -122,7 +122,7 @@ def key(r, used, pool=None, prefix=""):
     while True:
         k = prefix + "".join(r.choice(KEYCH) for _ in range(r.randint(1, 8)))
         if r.random() < .1:
-            k += r.choice(["é", "中", "ß"])
+            k += r.choice(["é", "中", "ß", "İ", "ſ", "ﬁ"])
         if k not in used and not OPENER.search(k + "{"):
             used.add(k)
             return k
